@@ -21,12 +21,25 @@ MANIFEST = dict(
          "quote / other quote / backslash / letter / braces / newline, runs of quotes shorter and longer than the delimiter) read by an independent "
          "reference reader of the documented syntax, by Model.Lex and through SQLite; emitted SQL text vs the model; ORACLE: the value SQLite returns for the emitted "
          "statement (one statement, one row, one column) must equal the denoted value byte for byte; per dialect (all 12) the emitted SQL is "
-         "tokenised by sqlparser's tokenizer for that dialect and the literal must be exactly one string token with that value.",
+         "tokenised by sqlparser's tokenizer for that dialect and the literal must be exactly one string token with that value. CONTEXT GRID "
+         "(tools/c08ctx.py): the literal as operand of every operator / std function / transform that takes text or numbers (??, == != < >= with a column and "
+         "with another literal, !, &&, ||, case conditions and branches, text.replace / starts_with / contains / ends_with as subject and as pattern, "
+         "upper / lower / trim / length / extract, ~=, in, as, f-string fragments and interpolated operands, s-string operands, filter, derive, sort / group "
+         "keys, having, aggregate and window arguments, join conditions, relation literals, from_text, let constants, function parameters, append) x "
+         "adversarial values (comment markers, quotes, backslashes, wildcards, braces, template markers, parameter markers, newlines, non-ASCII, very "
+         "long) x spellings: the rows SQLite returns for the emitted statement (sql.sqlite, and sql.generic where it executes) must equal the rows of a Python "
+         "model of the context; for all 12 dialects the token stream of the statement must be the token stream of the same context with a harmless "
+         "placeholder value, the placeholder exchanged inside the string tokens. SPELLING EQUIVALENCE: every ordered pair of spellings of one string / "
+         "integer / float (plain, raw, 3- and 5-quote, escaped, \\u{} / \\x, f-string; decimal, underscores, 0x / 0o / 0b; exponent forms) compared with "
+         "== != < >= in, in case and filter (both operands literals: the compiler folds) must be equal; number spellings in arithmetic, ranges, take, "
+         "lag, round; dates / times / timestamps in comparisons, coalesce, case, ranges, group keys.",
     note="floats are compared through SQLite as f64 bit patterns (no IEEE model in Lean: floats are outside the theorems); dates and times "
          "are tied by correspondence only; the 11 non-SQLite dialects are judged by sqlparser's tokenizer for the dialect, not by a database. "
          "Fixed in /repo: the string printer's 'already escaped' heuristic (938f352). Open findings: backslash as data on backslash-escaping "
          "dialects, quotes on BigQuery, float overflow printed as `inf`, integers beyond i64 silently becoming floats, NUL inside a string, "
-         "unparenthesised f-string operands on dialects without CONCAT.",
+         "unparenthesised f-string operands on dialects without CONCAT, two written forms of one time / timestamp compared as text when the compiler "
+         "folds `==` / `!=` of two literals. In the context grid `~=` is executed with REGEXP registered as string equality and sql.generic with CONCAT / "
+         "CHAR_LENGTH registered as SQLite functions; date.to_text (a format language, no SQLite translation) is not a context.",
     technique="Lean 4 proof (lexer mirror + string printer mirror + SQL string lexers) + exhaustive small-scope and random differential runs "
               "against the real lexer/compiler, SQLite as value oracle, sqlparser tokenizers as per-dialect oracle", ref="4/C08")
 
@@ -962,6 +975,296 @@ def suite_source_grid(ctx, items, label, stats):
     stats["t_" + label] = round(time.time() - t0, 1)
 
 
+# ---------------------------------------------------------------------------------------------------------------
+# context x value x spelling grid (tools/c08ctx.py): the literal as an operand of every operator / std function / transform
+# ---------------------------------------------------------------------------------------------------------------
+
+def _dq(v):
+    return '"' + esc(v, '"', nl_escape=True) + '"'
+
+
+def _rot_spellings(v, allow_f):
+    sp = [x for x in spellings(v, True) if allow_f or x[2] != "F"]
+    return sp
+
+
+def suite_contexts(ctx, dialects, stats, thorough, rng):
+    import sys
+    import c08ctx as X
+    H = sys.modules[__name__]
+    t0 = time.time()
+    C = X.string_contexts()
+    db = X.Db()
+    st = stats["ctx"] = Counter()
+    jobs = []       # dict(ci, v, L, styles, dialect, mode, stream)
+
+    def job(ci, v, j, dialect, mode, stream):
+        name, k, build, model, ordered, allow_f, items = C[ci]
+        sp = _rot_spellings(v, allow_f)
+        pick = [sp[(j + i) % len(sp)] for i in range(max(k, 1))]
+        L = [x[1] for x in pick]
+        prql = build(L, _dq(v + X.OTHER), v, H)
+        jobs.append(dict(ci=ci, v=v, styles=[x[0] for x in pick][:k], prql=prql, dialect=dialect, mode=mode, stream=stream))
+
+    core = [v for v in X.CORE if thorough or len(v) <= 2000]
+    small = [""] + ["".join(p) for k in (1, 2) for p in itertools.product(X.ALPHA2, repeat=k)]
+    small = [v for v in small if v not in set(core)]
+    other_d = [d for d in dialects if d != "sqlite"]
+    for ci in range(len(C)):
+        # placeholder first: the models themselves are checked on a harmless value, and it fixes the expected token stream per dialect
+        for d in dialects:
+            job(ci, X.PH, 0, d, "probe", "probe")
+        for vi, v in enumerate(core):
+            n = len(_rot_spellings(v, C[ci][5]))
+            for j in (range(n) if thorough else sorted({(ci + vi + t * ((n + 3) // 4)) % n for t in range(4)})):
+                job(ci, v, j, "sqlite", "exec", "core")
+            job(ci, v, ci + vi, "generic", "exec", "core")
+            ds = other_d if thorough else sorted({other_d[(ci + vi + 3 * t) % len(other_d)] for t in range(4)})
+            for d in (["sqlite"] + ds if C[ci][0] not in X.NO_TOKEN_ORACLE else []):
+                job(ci, v, 1, d, "tok", "core")
+        for vi, v in enumerate(small):
+            n = len(_rot_spellings(v, C[ci][5]))
+            for j in (range(0, n, 3) if thorough else [(ci + vi) % n]):
+                job(ci, v, j, "sqlite", "exec", "small")
+            if thorough:
+                job(ci, v, ci + vi, "generic", "exec", "small")
+                job(ci, v, 1, other_d[(ci + vi) % len(other_d)], "tok", "small")
+    rv = random_values(rng, 6000 if thorough else 1500)
+    for v in rv:
+        ci = rng.randrange(len(C))
+        job(ci, v, rng.randrange(13), rng.choice(["sqlite", "sqlite", "sqlite", "generic"]), "exec", "random")
+        if rng.random() < 0.35:
+            job(ci, v, 1, rng.choice(dialects), "tok", "random")
+
+    comp = vh_batch([compile_req(j["prql"], j["dialect"]) for j in jobs])
+    tk = [i for i, j in enumerate(jobs) if j["mode"] in ("tok", "probe")]
+    toks = dict(zip(tk, vh_batch([{"op": "sqlparse", "dialect": jobs[i]["dialect"], "sql": comp[i].get("sql", ""), "tokens": True} for i in tk])))
+
+    # probes: does the context compile / execute / match its model for the placeholder value?
+    executable, ph_tokens = {}, {}
+    for i, (j, a) in enumerate(zip(jobs, comp)):
+        if j["mode"] != "probe":
+            continue
+        name, d = C[j["ci"]][0], j["dialect"]
+        if "sql" not in a:
+            st[f"{d}: context has no translation"] += 1
+            if d == "sqlite":
+                ctx.oracle_failure("context-rejected", f"context {name} does not compile for a harmless value", {"prql": j["prql"], "dialect": d, "answer": a})
+            continue
+        t = toks[i]
+        if "tokens" in t and t.get("statements") == 1:
+            ph_tokens[(j["ci"], d)] = sig_tokens(t)
+        if d in ("sqlite", "generic"):
+            R = X.rows_for(X.PH)
+            db.fill(R)
+            got, want = db.run(a["sql"]), C[j["ci"]][3](X.PH, R)
+            ok = X.same_result(got, want, C[j["ci"]][4])
+            executable[(j["ci"], d)] = ok
+            if not ok and d == "sqlite":
+                ctx.oracle_failure("context-model-mismatch", f"context {name}: SQLite returns {str(got)[:200]} for the harmless value, the model of the context says {str(want)[:200]}",
+                                   {"prql": j["prql"], "dialect": d, "sql": a["sql"], "setup": X.setup_sql(R), "shims": True})
+            if not ok and d == "generic":
+                st["generic: context not executable on SQLite (" + (got[1].split(":")[0] if got[0] == "error" else "different rows") + ")"] += 1
+
+    def report(j, a, what, extra, fid=None):
+        R = X.rows_for(j["v"])
+        stats["fail"][("ctx-" + j["dialect"], fid)] += 1
+        ctx.oracle_failure(fid, what, dict({"prql": j["prql"], "dialect": j["dialect"], "context": C[j["ci"]][0], "value": j["v"], "spellings": j["styles"],
+                                            "sql": a.get("sql"), "setup": X.setup_sql(R) if len(j["v"]) < 200 else None, "shims": True}, **extra))
+
+    def narrow(j, got, want):
+        """a failing packed program -> the first single-item program that fails on its own (smaller replay)"""
+        items = C[j["ci"]][6]
+        if not items or got[0] == "error" or got[0] != want[0]:
+            return None
+        bad = [c for c in range(1, len(want[0])) if [r[c] for r in X._srt(got[1])] != [r[c] for r in X._srt(want[1])]]
+        for c in bad[:1]:
+            it = next(i for i in X.ITEMS if i[0] == items[c - 1])
+            sc = X.single_item_context(it)
+            sp = _rot_spellings(j["v"], it[4])
+            base = next((q for q in range(len(sp)) if sp[q][0] == j["styles"][0]), 0) if j["styles"] else 0
+            pick = [sp[(base + q) % len(sp)] for q in range(max(it[1], 1))]
+            prql = sc[2]([x[1] for x in pick], _dq(j["v"] + X.OTHER), j["v"], H)
+            a = vh_batch([compile_req(prql, j["dialect"])])[0]
+            if "sql" in a:
+                R = X.rows_for(j["v"])
+                db.fill(R)
+                g2, w2 = db.run(a["sql"]), sc[3](j["v"], R)
+                if not X.same_result(g2, w2, False):
+                    return dict(j, prql=prql, styles=[x[0] for x in pick][:it[1]]), a, it[0], g2, w2
+        return None
+
+    nfail = 0
+    for i, (j, a) in enumerate(zip(jobs, comp)):
+        if j["mode"] == "probe":
+            continue
+        ci, v, d = j["ci"], j["v"], j["dialect"]
+        name, k, build, model, ordered, allow_f, items = C[ci]
+        if j["mode"] == "exec":
+            if not executable.get((ci, d)):
+                continue
+            ctx.case(("ctx", name, d, v, tuple(j["styles"])), nontrivial="sql" in a)
+            st[f"exec:{d}:{j['stream']}"] += 1
+            for s_ in j["styles"]:
+                stats["styles"]["ctx:" + s_] += 1
+            if "sql" not in a:
+                report(j, a, f"context {name}: the program compiles for a harmless value but not for {v[:60]!r} written as {j['styles']}", {"answer": a}, "literal-rejected-in-context")
+                continue
+            R = X.rows_for(v)
+            db.fill(R)
+            got, want = db.run(a["sql"]), model(v, R)
+            stats["sqlite_exec"] += 1
+            if X.same_result(got, want, ordered):
+                continue
+            nfail += 1
+            fid = classify_string("sqlite", v) if "\x00" in v else None
+            nr = narrow(j, got, want) if nfail <= 40 else None
+            if nr:
+                j2, a2, iname, g2, w2 = nr
+                report(j2, a2, f"context {iname}: value {v[:60]!r} written as {j2['styles']} gives {str(g2[1])[:160]}, the context's model says {str(w2[1])[:160]}",
+                       {"expected": str(w2)[:600], "observed": str(g2)[:600], "context": iname}, fid)
+            else:
+                report(j, a, f"context {name}: value {v[:60]!r} written as {j['styles']} gives {str(got)[:200]}, the context's model says {str(want)[:200]}",
+                       {"expected": str(want)[:600], "observed": str(got)[:600]}, fid)
+        else:
+            base = ph_tokens.get((ci, d))
+            if base is None or name in X.NO_TOKEN_ORACLE:
+                continue
+            ctx.case(("ctx-tok", name, d, v), nontrivial="sql" in a)
+            st[f"tokens:{j['stream']}"] += 1
+            stats["dialect_tok"] += 1
+            t = toks[i]
+            fid = classify_strings(d, [v, v + X.OTHER])
+            if "sql" not in a:
+                report(j, a, f"context {name}, sql.{d}: compiles for a harmless value but not for {v[:60]!r}", {"answer": a}, fid or "literal-rejected-in-context")
+                continue
+            if "tokens" not in t or t.get("statements") != 1 or sig_tokens(t) != X.subst_tokens(base, v):
+                got_s, want_s = string_tokens(sig_tokens(t)) if "tokens" in t else None, string_tokens(X.subst_tokens(base, v))
+                report(j, a, f"context {name}, sql.{d}: the statement for {v[:60]!r} is not the statement for the value {X.PH!r} with that value exchanged "
+                             f"(string tokens {str(got_s)[:200]}, expected {str(want_s)[:200]})",
+                       {"tokenize_error": t.get("tokenize_error"), "parse_error": t.get("parse_error"), "string_tokens": str(got_s)[:600], "expected_string_tokens": str(want_s)[:600]}, fid)
+    ctx.obligation("context grid: every context's model agrees with SQLite for a harmless value (sql.sqlite)",
+                   all(executable.get((ci, "sqlite")) for ci in range(len(C))), f"{len(C)} programs ({len(X.ITEMS)} item contexts + {len(X.PROGRAMS)} program contexts); "
+                   f"executable for sql.generic: {sum(1 for ci in range(len(C)) if executable.get((ci, 'generic')))}")
+    stats["t_contexts"] = round(time.time() - t0, 1)
+
+
+def _exec_jobs(ctx, stats, db, X, jobs, probe_key=None):
+    """jobs: dict(name, prql, dialect, rows, want=(names, rows), ordered, value, spellings, probe, fid(job, answer, got) -> class | None).
+    A job marked `probe` decides whether its (name, dialect) is executable on SQLite at all (sql.generic); sql.sqlite must always be."""
+    comp = vh_batch([compile_req(j["prql"], j["dialect"]) for j in jobs])
+    dead = set()
+    for j, a in zip(jobs, comp):
+        key = (j["name"], j["dialect"])
+        if key in dead:
+            continue
+        ctx.case(("ctx", j["name"], j["dialect"], j["prql"]), nontrivial="sql" in a)
+        stats["ctx"][f"exec:{j['dialect']}:{j['stream']}"] += 1
+        got = None
+        if "sql" in a:
+            db.fill(j["rows"])
+            got = db.run(a["sql"])
+            stats["sqlite_exec"] += 1
+            if X.same_result(got, j["want"], j["ordered"]):
+                continue
+        if j.get("probe") and j["dialect"] != "sqlite":
+            dead.add(key)
+            stats["ctx"][f"{j['dialect']}: context not executable on SQLite"] += 1
+            continue
+        fid = j["fid"](j, a, got) if j.get("fid") else None
+        stats["fail"][("ctx-" + j["dialect"], fid)] += 1
+        what = (f"context {j['name']}: {j['value']!r} written as {j['spellings']} " +
+                (f"gives {str(got)[:200]}, the context's model says {str(j['want'])[:200]}" if got is not None else f"does not compile: {str(a)[:200]}"))
+        ctx.oracle_failure(fid, what, {"prql": j["prql"], "dialect": j["dialect"], "context": j["name"], "value": j["value"], "spellings": j["spellings"], "sql": a.get("sql"),
+                                       "setup": X.setup_sql(j["rows"]), "shims": True, "expected": str(j["want"])[:600], "observed": str(got)[:600]})
+
+
+def suite_spelling_pairs(ctx, stats, thorough, rng):
+    """two spellings of one value compared with each other (both operands literals: the compiler may fold), every ordered pair"""
+    import c08ctx as X
+    t0 = time.time()
+    db = X.Db()
+    stats.setdefault("ctx", Counter())
+    jobs = []
+    rep = ["dq", "sq", "raw-dq", "dq3", "sq5", "unicode-escapes", "f-dq", "sq-bare"]
+    svals = [v for v in X.CORE if 0 < len(v) <= 2000]
+
+    def spair(v, a, b, stream):
+        R = X.rows_for(v)
+        A, B = a[1], b[1]
+        prql = (f"from k | filter {A} == {B} | select {{id, e = {A} == {B}, n = {A} != {B}, l = {A} < {B}, g = {A} >= {B}, "
+                f"c = case [{A} != {B} => 0, true => 1], i = ({A} | in [{B}]), r = {A} ~= {B}, w = ({A} | text.ends_with {B})}}")
+        jobs.append(dict(name="string-spelling-pair", prql=prql, dialect="sqlite", rows=R, ordered=False, value=v, spellings=[a[0], b[0]], stream=stream,
+                         want=(["id", "e", "n", "l", "g", "c", "i", "r", "w"], [[r[0], 1, 0, 0, 1, 1, 1, 1, 1] for r in R])))
+
+    for vi, v in enumerate(svals):
+        sp = spellings(v, True)
+        full = thorough or vi % 4 == 0 or v in ("abc", "C:\\temp", "--")
+        use = sp if full else [x for x in sp if x[0] in rep]
+        for a in use:
+            for b in use:
+                spair(v, a, b, "pairs")
+    for v in random_values(rng, 1500 if thorough else 300):
+        sp = spellings(v, True)
+        spair(v, rng.choice(sp), rng.choice(sp), "pairs-random")
+
+    def npair(m, A, B, C_, is_int, stream):
+        R = X.rows_for("v")
+        prql = (f"from k | filter {A} == {B} | select {{id, e = {A} == {B}, n = {A} != {B}, l = {A} < {B}, g = {A} >= {B}, "
+                f"c = case [{A} != {B} => 0, true => 1], i = ({A} | in {B}..{C_}), s = {A} - {B}, p = {A} + {B}}}")
+        two = m + m if is_int and m < 2 ** 62 else float(m) + float(m)
+        jobs.append(dict(name="number-spelling-pair", prql=prql, dialect="sqlite", rows=R, ordered=False, value=m, spellings=[A, B, C_], stream=stream,
+                         want=(["id", "e", "n", "l", "g", "c", "i", "s", "p"], [[r[0], 1, 0, 0, 1, 1, 1, 0 if is_int else 0.0, two] for r in R])))
+
+    for is_int, vals, spf in ((True, X.INTS, X.int_spellings), (False, X.FLOATS, X.float_spellings)):
+        for m in vals:
+            sp = spf(m)
+            for ai, A in enumerate(sp):
+                for bi, B in enumerate(sp):
+                    npair(m, A, B, sp[(ai + bi) % len(sp)], is_int, "pairs-number")
+    _exec_jobs(ctx, stats, db, X, jobs)
+    stats["t_pairs"] = round(time.time() - t0, 1)
+
+
+TEMPORAL_FOLD = "temporal-literals-compared-as-text-when-folded"
+
+
+def suite_number_contexts(ctx, stats, thorough, rng):
+    import c08ctx as X
+    t0 = time.time()
+    db = X.Db()
+    stats.setdefault("ctx", Counter())
+    jobs = []
+    R = X.rows_for("v")
+    for is_int, vals, spf in ((True, X.INTS, X.int_spellings), (False, X.FLOATS, X.float_spellings)):
+        C = X.number_contexts(is_int)
+        for (name, k, build, model, ordered, ok) in C:
+            first = True
+            for m in ([10, 2] if is_int else [1.5]) + vals:
+                if not ok(m):
+                    continue
+                sp = spf(m)
+                for j in range(len(sp)):
+                    L = [sp[(j + i) % len(sp)] for i in range(k)]
+                    for d in ("sqlite", "generic"):
+                        if d == "generic" and not (first or j % 3 == 0 or thorough):
+                            continue
+                        jobs.append(dict(name=("int:" if is_int else "float:") + name, prql=build(L, m), dialect=d, rows=R, want=model(m, R), ordered=ordered, value=m,
+                                         spellings=L, stream="numbers", probe=first))
+                    first = False
+    for (name, kind, A, B, prql, model) in X.temporal_programs():
+        def fid(j, a, got, kind=kind, A=A, B=B, name=name):
+            # the fold compares the literals' TEXT: two written forms of one time / instant are `false` when compared by the compiler
+            sql = a.get("sql") or ""
+            if name in ("temporal-eq", "temporal-ne", "temporal-eq-filter", "temporal-eq-case") and kind in ("Time", "Timestamp") and A != B \
+                    and "TIME(" not in sql and "'" not in sql:
+                return TEMPORAL_FOLD
+            return None
+        jobs.append(dict(name=name, prql=prql, dialect="sqlite", rows=R, want=model(R), ordered=False, value=[A, B], spellings=[kind], stream="temporal", fid=fid))
+    _exec_jobs(ctx, stats, db, X, jobs)
+    stats["t_number_contexts"] = round(time.time() - t0, 1)
+
+
 def run(ctx):
     br = vlib.standard_proof_obligations(ctx, ["PrqlModel.Props.C08"], ["Lex", "Dialects"],
         required_theorems=["prql_string_value", "prql_quote_roundtrip", "sql_quote_roundtrip", "sql_quote_eq_doubling", "sql_quote_std_roundtrip",
@@ -979,6 +1282,11 @@ def run(ctx):
                 "quotes), runs of 1..n+2 delimiter quotes at the start / middle / end next to each kind of neighbour, pairs of runs; each source is read by a "
                 "reference reader (regular expressions written from the language reference) and by Model.Lex, and where it is one literal its value is "
                 "compared with what SQLite returns (s-strings: with the emitted SQL text); plus seeded random written forms. f-strings: fragments x shapes x all dialects. Relation literals: random rows. "
+                "Context grid (seed-independent): 76 contexts (51 select-item contexts packed 6 to a program + 25 program contexts) x 88 adversarial values "
+                "x 4 rotating spellings (every spelling of every value over the contexts; thorough: every spelling in every context) + every string of length "
+                "<= 2 over 13 characters (one rotating spelling; thorough: every third), on sql.sqlite and sql.generic through SQLite, and on 4 rotating (thorough: all) other dialects through the tokenizer; "
+                "every ordered pair of spellings of a value compared with itself; 14 integers x up to 10 spellings and 9 floats x up to 11 spellings in 29 "
+                "number contexts; 4 dates and 6 pairs of time / timestamp forms; then seeded random (value, context, spelling, dialect). "
                 "non-trivial = the compiler produced SQL that was executed or tokenised")
     ctx.assumptions += ["string values are compared byte-exactly through SQLite (python sqlite3); the other 11 dialects are judged by sqlparser's tokenizer "
                         "for that dialect (the reader prqlc itself trusts), not by a live database",
@@ -1024,6 +1332,12 @@ def run(ctx):
     # 6. relation literals
     suite_relation_literals(ctx, small + rv[:200], stats, ctx.rng, 4000 if thorough else 500)
 
+    # 7. the literal in every expression context (operands of operators / std functions / transforms), adversarial values x spellings
+    suite_contexts(ctx, dialects, stats, thorough, ctx.rng)
+    # 8. two spellings of one value compared with each other (every ordered pair); numbers and dates / times in their contexts
+    suite_spelling_pairs(ctx, stats, thorough, ctx.rng)
+    suite_number_contexts(ctx, stats, thorough, ctx.rng)
+
     unknown = {f"{k[0]}:{k[1]}": n for k, n in stats["fail"].items() if k[1] not in ctx.known}
     ctx.obligation("oracle: every literal reaches SQLite / every dialect's tokenizer as one token with the denoted value (outside recorded findings)",
                    not unknown, json.dumps({f"{k[0]}:{k[1]}": n for k, n in stats["fail"].items()})[:1500])
@@ -1032,6 +1346,7 @@ def run(ctx):
         "fstring_shapes": dict(stats["fstr_shapes"]), "relation_literal_rows": {str(k): v for k, v in stats["rel_rows"].items()},
         "written_forms_by_documented_reading": dict(stats["grid_ref"]),
         "sqlite_statements_executed": stats["sqlite_exec"], "dialect_tokenisations": stats["dialect_tok"],
+        "context_grid": dict(stats.get("ctx", {})),
         "property_failures_by_site_and_class": {f"{k[0]}:{k[1]}": n for k, n in sorted(stats["fail"].items(), key=str)},
     }
     ctx.coverage_extra["timing_s"] = {k: v for k, v in stats.items() if k.startswith("t_")}
@@ -1046,7 +1361,14 @@ def replay(obj):
         if isinstance(r, dict) and "prql" in r and r["prql"].startswith("from"):
             a = vh_batch([compile_req(r["prql"], r.get("dialect", "sqlite"))])[0]
             print("compile:", a)
-            if "sql" in a and r.get("dialect", "sqlite") == "sqlite":
+            if "sql" in a and r.get("shims"):
+                import c08ctx
+                db = c08ctx.Db()
+                db.con.execute("DROP TABLE k")
+                for x in r.get("setup") or c08ctx.setup_sql(c08ctx.rows_for(r.get("value") if isinstance(r.get("value"), str) else "v")):
+                    db.con.execute(x)
+                print("sqlite :", db.run(a["sql"]), " expected:", r.get("expected"))
+            elif "sql" in a and r.get("dialect", "sqlite") == "sqlite":
                 print("sqlite :", sqlite_one(a["sql"], r.get("setup", SETUP)))
             elif "sql" in a:
                 t = vh_batch([{"op": "sqlparse", "dialect": r["dialect"], "sql": a["sql"], "tokens": True}])[0]
